@@ -2,7 +2,7 @@
    Statements only; proofs live in Raft/QuorumProofs.v and Raft/RaftProofs*.v. *)
 Require Import List Arith Bool Lia.
 Require Import Raft.Quorum Raft.QuorumProofs Raft.RaftModel Raft.RaftSys Raft.RaftLog Raft.RaftInv
-               Raft.RaftInvMain Raft.RaftRefine Raft.RaftSafety Raft.RaftStepProps Raft.RaftSafetySteps Raft.RaftCheck.
+               Raft.RaftInvBase Raft.RaftInvMain Raft.RaftRefine Raft.RaftSafety Raft.RaftStepProps Raft.RaftSafetySteps Raft.RaftCheck.
 Import ListNotations.
 
 (* ------------------------------------------------------------------ quorum layer
@@ -133,10 +133,10 @@ Print Assumptions C15_commit_current_term_only.
    acknowledged in the term t0 in which the leader of t0 created entry k0 (micro level:
    ga x t0 = what x acknowledged in term t0, LL t0 = the log of the leader of t0) *)
 Theorem C15_commit_justified : forall c0 c1, (c0 <> [] \/ c1 <> []) ->
-  forall s, mreachable c0 c1 s ->
+  forall s, mreachable [(c0, c1)] s ->
   forall y, n_commit (nodes s y) = 0 \/
     exists t0 k0, t0 <= n_term (nodes s y) /\ n_commit (nodes s y) <= k0 /\
-      term_at (LL s t0) k0 = t0 /\ Qr c0 c1 (ackedp s t0 k0) /\
+      term_at (LL s t0) k0 = t0 /\ Qr [(c0, c1)] (ackedp s t0 k0) /\
       firstn (n_commit (nodes s y)) (n_log (nodes s y)) = firstn (n_commit (nodes s y)) (LL s t0).
 Proof. exact commit_justified. Qed.
 Print Assumptions C15_commit_justified.
@@ -144,8 +144,8 @@ Print Assumptions C15_commit_justified.
 (* Leader completeness.  Ghost form: an entry committed in term t is in the log of the
    leader of every later term. *)
 Theorem C15_leader_completeness_ghost : forall c0 c1, (c0 <> [] \/ c1 <> []) ->
-  forall s, mreachable c0 c1 s ->
-  forall t k t3, committed_at c0 c1 s t k -> t < t3 -> LL s t3 <> [] ->
+  forall s, mreachable [(c0, c1)] s ->
+  forall t k t3, committed_at [(c0, c1)] s t k -> t < t3 -> LL s t3 <> [] ->
     k <= length (LL s t3) /\ firstn k (LL s t3) = firstn k (LL s t).
 Proof. exact leader_completeness_ghost. Qed.
 Print Assumptions C15_leader_completeness_ghost.
@@ -189,15 +189,18 @@ Theorem C15_committed_forever : forall c0 c1, (c0 <> [] \/ c1 <> []) ->
 Proof. exact committed_forever. Qed.
 Print Assumptions C15_committed_forever.
 
-(* the inductive invariant behind all of the above (Raft/RaftInv.v, 32 components) *)
-Theorem C15_invariant : forall c0 c1, (c0 <> [] \/ c1 <> []) ->
-  forall s, mreachable c0 c1 s -> Inv c0 c1 s.
+(* the inductive invariant behind all of the above (Raft/RaftInv.v, 32 components).  It is proved
+   for a micro-step system in which every decision (vote tally, commit index) may be taken with
+   ANY configuration of a family F whose quorums pairwise intersect; fixed membership is the
+   family of one non-empty configuration. *)
+Theorem C15_invariant : forall F, inter_family F ->
+  forall s, mreachable F s -> Inv F s.
 Proof. exact mreachable_inv. Qed.
 Print Assumptions C15_invariant.
 
 (* every run of the executable system is a run of the micro-step system *)
-Theorem C15_refinement : forall c0 c1 x, xreachable c0 c1 x ->
-  exists s, mreachable c0 c1 s /\ (forall y, nodes s y = x_nodes x y) /\ msgs s = x_msgs x.
+Theorem C15_refinement : forall c0 c1 F, In (c0, c1) F -> forall x, xreachable c0 c1 x ->
+  exists s, mreachable F s /\ (forall y, nodes s y = x_nodes x y) /\ msgs s = x_msgs x.
 Proof. exact xreachable_sim. Qed.
 Print Assumptions C15_refinement.
 
